@@ -134,9 +134,9 @@ Local Open Scope string_scope.
    124  archive_write.c:571  [archive_write_open]  ARCHIVE_STATE_NEW
    125  archive_write.c:622  [archive_write_close]  ARCHIVE_STATE_ANY | ARCHIVE_STATE_FATAL
    126  archive_write.c:703  [archive_write_free]  ARCHIVE_STATE_ANY | ARCHIVE_STATE_FATAL
-   127  archive_write.c:747  [archive_write_header]  ARCHIVE_STATE_DATA | ARCHIVE_STATE_HEADER
-   128  archive_write.c:811  [archive_write_finish_entry]  ARCHIVE_STATE_HEADER | ARCHIVE_STATE_DATA
-   129  archive_write.c:830  [archive_write_data]  ARCHIVE_STATE_DATA
+   127  archive_write.c:740  [archive_write_header]  ARCHIVE_STATE_DATA | ARCHIVE_STATE_HEADER
+   128  archive_write.c:804  [archive_write_finish_entry]  ARCHIVE_STATE_HEADER | ARCHIVE_STATE_DATA
+   129  archive_write.c:823  [archive_write_data]  ARCHIVE_STATE_DATA
    130  archive_write_add_filter_b64encode.c:85  [archive_write_add_filter_b64encode]  ARCHIVE_STATE_NEW
    131  archive_write_add_filter_bzip2.c:86  [archive_write_add_filter_bzip2]  ARCHIVE_STATE_NEW
    132  archive_write_add_filter_compress.c:133  [archive_write_add_filter_compress]  ARCHIVE_STATE_NEW
@@ -161,8 +161,8 @@ Local Open Scope string_scope.
    151  archive_write_disk_posix.c:1985  [archive_write_disk_set_user_lookup]  ARCHIVE_STATE_ANY
    152  archive_write_disk_posix.c:2001  [archive_write_disk_gid]  ARCHIVE_STATE_ANY
    153  archive_write_disk_posix.c:2012  [archive_write_disk_uid]  ARCHIVE_STATE_ANY
-   154  archive_write_disk_posix.c:2555  [archive_write_disk_close]  ARCHIVE_STATE_HEADER | ARCHIVE_STATE_DATA
-   155  archive_write_disk_posix.c:2690  [archive_write_disk_free]  ARCHIVE_STATE_ANY | ARCHIVE_STATE_FATAL
+   154  archive_write_disk_posix.c:2565  [archive_write_disk_close]  ARCHIVE_STATE_HEADER | ARCHIVE_STATE_DATA
+   155  archive_write_disk_posix.c:2714  [archive_write_disk_free]  ARCHIVE_STATE_ANY | ARCHIVE_STATE_FATAL
    156  archive_write_disk_windows.c:842  [archive_write_disk_header]  ARCHIVE_STATE_HEADER | ARCHIVE_STATE_DATA
    157  archive_write_disk_windows.c:1069  [archive_write_disk_set_skip_file]  ARCHIVE_STATE_ANY
    158  archive_write_disk_windows.c:1165  [archive_write_data_block]  ARCHIVE_STATE_DATA
@@ -175,22 +175,22 @@ Local Open Scope string_scope.
    165  archive_write_disk_windows.c:1950  [archive_write_disk_close]  ARCHIVE_STATE_HEADER | ARCHIVE_STATE_DATA
    166  archive_write_disk_windows.c:1990  [archive_write_disk_free]  ARCHIVE_STATE_ANY | ARCHIVE_STATE_FATAL
    167  archive_write_open_memory.c:57  [archive_write_open_memory]  ARCHIVE_STATE_NEW
-   168  archive_write_set_format_7zip.c:353  [archive_write_set_format_7zip]  ARCHIVE_STATE_NEW
+   168  archive_write_set_format_7zip.c:357  [archive_write_set_format_7zip]  ARCHIVE_STATE_NEW
    169  archive_write_set_format_ar.c:91  [archive_write_set_format_ar_bsd]  ARCHIVE_STATE_NEW
    170  archive_write_set_format_ar.c:107  [archive_write_set_format_ar_svr4]  ARCHIVE_STATE_NEW
    171  archive_write_set_format_cpio_binary.c:181  [archive_write_set_format_cpio_binary]  ARCHIVE_STATE_NEW
    172  archive_write_set_format_cpio_newc.c:112  [archive_write_set_format_cpio_newc]  ARCHIVE_STATE_NEW
    173  archive_write_set_format_cpio_odc.c:106  [archive_write_set_format_cpio_odc]  ARCHIVE_STATE_NEW
-   174  archive_write_set_format_iso9660.c:1056  [archive_write_set_format_iso9660]  ARCHIVE_STATE_NEW
-   175  archive_write_set_format_mtree.c:1380  [<fn>]  ARCHIVE_STATE_NEW
+   174  archive_write_set_format_iso9660.c:1058  [archive_write_set_format_iso9660]  ARCHIVE_STATE_NEW
+   175  archive_write_set_format_mtree.c:1421  [<fn>]  ARCHIVE_STATE_NEW
    176  archive_write_set_format_pax.c:117  [archive_write_set_format_pax_restricted]  ARCHIVE_STATE_NEW
    177  archive_write_set_format_pax.c:135  [archive_write_set_format_pax]  ARCHIVE_STATE_NEW
    178  archive_write_set_format_raw.c:54  [archive_write_set_format_raw]  ARCHIVE_STATE_NEW
    179  archive_write_set_format_shar.c:109  [archive_write_set_format_shar]  ARCHIVE_STATE_NEW
    180  archive_write_set_format_ustar.c:171  [archive_write_set_format_ustar]  ARCHIVE_STATE_NEW
    181  archive_write_set_format_v7tar.c:148  [archive_write_set_format_v7tar]  ARCHIVE_STATE_NEW
-   182  archive_write_set_format_warc.c:123  [archive_write_set_format_warc]  ARCHIVE_STATE_NEW
-   183  archive_write_set_format_xar.c:360  [archive_write_set_format_xar]  ARCHIVE_STATE_NEW
+   182  archive_write_set_format_warc.c:125  [archive_write_set_format_warc]  ARCHIVE_STATE_NEW
+   183  archive_write_set_format_xar.c:361  [archive_write_set_format_xar]  ARCHIVE_STATE_NEW
    184  archive_write_set_format_zip.c:564  [archive_write_zip_set_compression_deflate]  ARCHIVE_STATE_NEW | ARCHIVE_STATE_HEADER | ARCHIVE_STATE_DATA
    185  archive_write_set_format_zip.c:592  [archive_write_zip_set_compression_bzip2]  ARCHIVE_STATE_NEW | ARCHIVE_STATE_HEADER | ARCHIVE_STATE_DATA
    186  archive_write_set_format_zip.c:620  [archive_write_zip_set_compression_zstd]  ARCHIVE_STATE_NEW | ARCHIVE_STATE_HEADER | ARCHIVE_STATE_DATA
